@@ -13,7 +13,7 @@ RULE = ("seeded histories: write with an initial key-value dict (str/bytes, unic
         "and on _metadata files; non-trivial = >=1 update verified; distinct = distinct (target kind, footer-size delta, operation mix) tuples")
 ASSUMPTIONS = ["keys and values are compared as UTF-8 bytes (the API decodes bytes to str when it can)",
                "vf/ref decides validity of the rewritten file (magic, footer length, IDL-typed footer, page structure)"]
-CASE_TIMEOUT = 300
+CASE_TIMEOUT = 120
 
 UNI = ["k", "key with space", "clé", "键", "", "x" * 100]
 
@@ -28,7 +28,7 @@ def gen_cases(tier, seed):
         k = int(rng.integers(1, 7))
         steps = []
         for j in range(k):
-            steps.append({"delta": int(deltas[(i * 7 + j * 13) % len(deltas)]), "op": ["resize", "resize", "add", "remove", "mix", "replace_same", "remove_many"][int(rng.integers(0, 7))],
+            steps.append({"delta": int(deltas[(i * 7 + j * 13) % len(deltas)]), "op": ["resize", "resize", "add", "remove", "mix", "replace_same", "remove_many", "with_unchanged"][int(rng.integers(0, 8))],
                           "seed": int(rng.integers(0, 2 ** 31))})
         init = int(rng.integers(0, 6))
         cases.append({"id": "K/%d/%d" % (seed, i), "target": target, "steps": steps, "seed": int(rng.integers(0, 2 ** 31)), "init": init,
@@ -136,6 +136,22 @@ def run_case(case):
                     counters["multi_key_removals"] = counters.get("multi_key_removals", 0) + 1
             if op == "replace_same":
                 upd["pad"] = "q" * cur_pad
+            if op == "with_unchanged":
+                # one update naming several keys, some of them re-submitted with the value they already have (as a caller who rewrites
+                # its whole metadata dict does), in any order
+                items = [("pad", "p" * max(0, cur_pad + d + (1 if d == 0 else 0)))]
+                others = [k for k in model if k not in (b"pad",)]
+                for k0 in [others[int(j_)] for j_ in r2.permutation(len(others))[:int(r2.integers(1, 3))]] if others else []:
+                    items.append((k0 if case["bytes_api"] else k0.decode("utf8"), model[k0] if r2.random() < 0.5 else model[k0].decode("utf8")))
+                if r2.random() < 0.4:
+                    items.append(("unch%d" % si, "x"))
+                if r2.random() < 0.6:
+                    items = [items[int(j_)] for j_ in r2.permutation(len(items))]
+                elif len(items) > 1:
+                    items = items[:1] + items[2:] + items[1:2]      # an unchanged key last
+                upd = dict(items)
+                if len(items) > 1:
+                    counters["updates_with_unchanged_keys"] = counters.get("updates_with_unchanged_keys", 0) + 1
             if not upd:
                 upd["pad"] = "p" * max(0, cur_pad + d)
             if (case["seed"] + si) % 5 == 0:
@@ -270,4 +286,4 @@ def coverage_extra(agg):
 
 
 def required(tier):
-    return {"updates_verified": 300, "deltaclass:-1..-7": 15, "deltaclass:<=-8": 15, "deltaclass:+1..+7": 15, "deltaclass:>=+8": 15, "deltaclass:0": 5, "multi_key_removals": 10, "frames_with_attrs": 20, "refused_updates": 20}
+    return {"updates_verified": 300, "deltaclass:-1..-7": 15, "deltaclass:<=-8": 15, "deltaclass:+1..+7": 15, "deltaclass:>=+8": 15, "deltaclass:0": 5, "multi_key_removals": 10, "frames_with_attrs": 20, "refused_updates": 20, "updates_with_unchanged_keys": 30}
